@@ -585,11 +585,9 @@ func c04r6(c *an.Ctx) {
 		"(*Manager).acquireSemaphore": {
 			"call (*Chan).Recv on Manager.sem": "releases the semaphore just acquired: never blocks (C02.R6)",
 		},
-		"(*Manager).NewServerStream": {
+		"(*Manager).NewServerStream": { // closures of a function are looked up under the function
 			"call (*Chan).Send on Manager.pdone": "capacity 1, one send per receive from m.pkts (C06.R5)",
-		},
-		"(*Manager).NewServerStream$1": {
-			"call (*Chan).Recv on Manager.sem": "releases the semaphore acquired by this call (C02.R6)",
+			"call (*Chan).Recv on Manager.sem":   "releases the semaphore acquired by this call (C02.R6)",
 		},
 		"(*Manager).Close": {
 			"call (*Signal).Wait on Manager.sigs.stream": "set by manageStreams' first defer (C12.R1)",
@@ -661,8 +659,12 @@ func c04r6(c *an.Ctx) {
 				return
 			}
 			nBare++
-			why, ok := reviewed[an.ShortFunc(fn)][id]
-			c.Check(ok, an.ShortFunc(fn)+" | bare blocking op: "+id, c.At(in), why, "a blocking operation without a term/ctx alternative that is not in the reviewed, paired set: nothing is known to wake it")
+			owner := an.ShortFunc(fn)
+			if i := strings.Index(owner, "$"); i >= 0 {
+				owner = owner[:i]
+			}
+			why, ok := reviewed[owner][id]
+			c.Check(ok, owner+" | bare blocking op: "+id, c.At(in), why, "a blocking operation without a term/ctx alternative that is not in the reviewed, paired set: nothing is known to wake it")
 		})
 	}
 	c.Floor("blocking selects in drpcmanager", 1, nSel)
